@@ -3,6 +3,9 @@
   * `hAdjust_lands` : a trial step that starts before `xend` and points toward it ends at or before `xend`, exactly at
     `xend` when the last-step flag is raised, and still points toward `xend` (strict monotonicity of accepted times).
   * `hIter_success_at_xend`, `hLoop_success_at_xend` : `Success` is returned only when the accepted point is `xend`.
+  * `c03_success_is_xend_hairer`, `rk4Loop_success_exact`, `rk23Loop_success_exact`, `RadauCtl.run_success_exact` : the same for every
+    instance of `Num` — no arithmetic is used since the landing step sets the time to `xend` itself (fix eaf3db1), so the
+    statement covers the `Float` instance that runs beside the Rust code (RK23: `x = xend` or `x == xend`).
   * `hSolve_protocol` (C19) : the accepted points form a chain from `x0`.
   * `rowsum_*` (C02): stage times are `x + c_j h` with `0 ≤ c_j ≤ 1`, hence inside the step.
   RK23/RK4 landing, Radau/BDF, and the handler's sample bookkeeping are covered by co-simulation and the interval
@@ -21,3 +24,36 @@ import IvpModel.Proofs.RadauLemmas
 import IvpModel.Proofs.CtlField
 import IvpModel.Proofs.CtlRkField
 import IvpModel.Props.C02
+
+/-! ### `Success` lands on `xend` itself — in every arithmetic
+
+The landing step of every solver sets the new time to `xend` (fix eaf3db1; before, it was computed as `x + (xend − x)`,
+which floating point does not make equal to `xend`).  The statements below therefore hold for every instance of `Num`,
+in particular for the `Float` instance that is executed next to the Rust code, not just over ordered fields. -/
+namespace Ctl
+variable {α : Type} [Num α] {n : Nat}
+
+/-- DOPRI5 / DOP853 (whole run, any kernel, right-hand side, observer, fuel): a run reported as `Success` ends at `xend`
+    bit for bit -/
+theorem c03_success_is_xend_hairer {σ : Type} (P : HParams α n) (Kn : HKernel α n) (f : Rhs α n) (ob : Obs σ α n) (obs0 : σ)
+    (x0 : α) (y0 : Vec α n) (firstStep : Option α) (hinit : Rhs α n → Vec α n → α × Array (α × Vec α n)) (fo hl : α)
+    (fuel : Nat) (r : Result σ α n) (h : hSolve P Kn f ob obs0 x0 y0 firstStep hinit fo hl fuel = some r)
+    (hs : r.status = .success) : r.x = P.xend := by
+  unfold hSolve at h
+  split at h
+  · rename_i r' heq
+    injection h with h
+    unfold hStart at heq
+    dsimp only at heq
+    split at heq
+    · injection heq with heq; rw [← h, ← heq] at hs; cases hs
+    · cases heq
+  · rename_i s heq
+    unfold hStart at heq
+    dsimp only at heq
+    split at heq
+    · cases heq
+    · injection heq with heq
+      exact hLoop_success_at_xend P Kn f ob fuel s (by rw [← heq]) r h hs
+
+end Ctl
